@@ -13,6 +13,23 @@ def main(d):
     d = os.path.abspath(d)
     case = json.load(open(os.path.join(d, "case.json")))
     prop = case.get("property", "?")
+    if case.get("key", {}).get("kind") == "expansion-depends-on-map-iteration-order":
+        # replay = re-explore all iteration orders for the recorded declaration, twice
+        import props_misc
+        text = case["detail"]["declaration_full"]
+        r1 = props_misc.run_orders([text])[0]
+        r2 = props_misc.run_orders([text])[0]
+        if (r1["distinct"], r1["executions"]) != (r2["distinct"], r2["executions"]):
+            log("the two explorations differ: not deterministic", r1, r2)
+            return 2
+        log("executions=%d distinct expansions=%d" % (r1["executions"], r1["distinct"]))
+        for o in r1["outcomes"][:2]:
+            log("  schedule %s -> %s" % (o[0], o[1][:300]))
+        if r1["distinct"] != 1:
+            print("VIOLATION property=%s replay=%s" % (prop, d))
+            return 1
+        log("replay passes on the current tree")
+        return 0
     src = open(os.path.join(d, "repro.rs")).read()
     runs = []
     se = ""
